@@ -52,6 +52,9 @@ KINDS = {
     # the doctest closes the stream its output is collected in: the error arises in the machinery, after the statement,
     # with no frame of the doctest in its traceback (F31); the reported line is some line of the part (not judged)
     'close_stdout': (['>>> import sys', '>>> sys.stdout.close()'], 'ValueError', 'anyline'),
+    # an exception object that answers every attribute lookup (a proxy / remote error with a permissive __getattr__)
+    'exc_anyattr': (['>>> class AnyAttr(Exception):', '...     def __getattr__(self, name):', '...         return None',
+                     '>>> raise AnyAttr("proxy")'], 'AnyAttr', 3),
     # an exception in a part whose (non-traceback) want is not compared because of IGNORE_WANT: still an exception
     'exc_ignorewant': (['>>> # xdoctest: +IGNORE_WANT', '>>> 1/0', 'whatever text'], 'ZeroDivisionError', 1),
     'exc_ignorewant_inline': (['>>> 1/0  # xdoctest: +IGNORE_WANT', 'whatever text'], 'ZeroDivisionError', 0),
